@@ -367,6 +367,19 @@ theorem netTokens_plain (g : Grammar) (c : Cpt) (hdot : splitOn '.' c.name = [c.
 theorem isDirective_head (g : Grammar) (a : Char) (x y : Str) : isDirective g (a :: x) = isDirective g (a :: y) := by
   simp [isDirective]
 
+/-- **line_roundtrip_partial.**  For every grammar `g` satisfying `grammarWF` (checked for the extracted table by
+    `table_wf2`), every rule `r` of it and every component `c` in normal form for `r` (`normalCpt`): parsing
+    the printed line gives the component back -- same class, name, type, id, nodes, keyword, the arguments
+    up to `normArgs` (an absent non-final value is read back as `0`), the option string in its canonical
+    printed form -- whatever names are in use (`used`).
+    PARTIAL: the quantifier `normalCpt` / `optsNormal` is smaller than "every netlist Lcapy accepts".  Excluded
+    although parser and printer accept them (covered by correspondence and oracle only):
+      (i)   namespaced names (`a.R1 1 2 3`; `nameOK` forbids `.`),
+      (ii)  anonymous components (`W 1 2`, `R? 1 2`) and directive / comment / blank lines,
+      (iii) option values containing `{`, `}` or `,` and the `def` key (`l={R_1}`, `l={a, b}`) -- a proof
+            convenience of `optStrOK`, not a defect: model and code round-trip them,
+    and, corresponding to the known findings C06-e / C06-a / C06-b, values that are empty, start with `{` or `"`,
+    contain a top-level `=`, equal a keyword of the type, or (SW) equal the component name. -/
 theorem line_roundtrip_partial (g : Grammar) (hg : grammarWF g = true) (r : Rule) (hr : r ∈ g.rules) (c : Cpt)
     (hn : normalCpt g r c = true) (s : Str) (hp : printCpt g c = some s) :
     ∃ kp os, (∀ used, parse g used [] s
@@ -668,7 +681,15 @@ theorem netTokens_reparsed (g : Grammar) (c : Cpt) (kp : Option Nat) (os s : Str
 /-- **line_roundtrip_full_partial.**  Line level, complete statement: for a component in normal form whose option
     table is in normal form, the printed line parses to a component that the specification identifies
     with the original (`sameCpt`: class, name, type, nodes, arguments up to `normArgs`, keyword, option
-    table), and printing that component gives the same line again (print is idempotent). -/
+    table), and printing that component gives the same line again (print is idempotent).
+    PARTIAL: the quantifier `normalCpt` / `optsNormal` is smaller than "every netlist Lcapy accepts".  Excluded
+    although parser and printer accept them (covered by correspondence and oracle only):
+      (i)   namespaced names (`a.R1 1 2 3`; `nameOK` forbids `.`),
+      (ii)  anonymous components (`W 1 2`, `R? 1 2`) and directive / comment / blank lines,
+      (iii) option values containing `{`, `}` or `,` and the `def` key (`l={R_1}`, `l={a, b}`) -- a proof
+            convenience of `optStrOK`, not a defect: model and code round-trip them,
+    and, corresponding to the known findings C06-e / C06-a / C06-b, values that are empty, start with `{` or `"`,
+    contain a top-level `=`, equal a keyword of the type, or (SW) equal the component name. -/
 theorem line_roundtrip_full_partial (g : Grammar) (hg : grammarWF g = true) (r : Rule) (hr : r ∈ g.rules) (c : Cpt)
     (hn : normalCpt g r c = true) (o : Opts) (ho : optsParse c.opts = .ok o) (hon : optsNormal o = true)
     (s : Str) (hp : printCpt g c = some s) :
@@ -818,8 +839,149 @@ theorem selOK_of_fields (g : Grammar) (hg : grammarWF g = true) (r : Rule) (hr :
     (`decide` over the whole regenerated table: re-checked against the source on every run.) -/
 theorem table_wf2 : grammarWF theGrammar = true := by decide +kernel
 
+/-! ### rejects, lifted to the level of `Parser.parse` (a LINE is rejected) -/
+
+/-- an error of `Rule.process` on the tokens of a line is the error of `parse` on that line -/
+theorem parse_error_of_process (g : Grammar) (hok : g.ok = true) (used : List Str) (s head : Str)
+    (sel : Option (Rule × Str)) (tail : Option Str)
+    (name0 : Str) (fields : List Str) (ty cid : Str) (r0 : Rule) (rs : List Rule)
+    (hstrip : strip s = s) (hdir : isDirective g s = false)
+    (hsf : splitFirst ';' s = (head, tail))
+    (hsplit : split g.delimiters head = some (name0 :: fields))
+    (hdot : splitOn '.' name0 = [name0])
+    (hm : matchType g name0 = some ty)
+    (hcid : (name0.drop ty.length).takeWhile isIdChar = cid)
+    (hanon : ((cid.isEmpty && (ty == ['A'] || ty == ['W'] || ty == ['O'] || ty == ['P'])) || cid == ['?']) = false)
+    (hrules : rulesOf g ty = r0 :: rs)
+    (rule : Rule) (kp : Option Nat)
+    (hsel : selectLoop fields (r0 :: rs) none = (sel, kp))
+    (hrule : rule = (sel.map (·.1)).getD r0)
+    (e : Err) (hproc : process rule fields name0 [] name0 = .error e) :
+    parse g used [] s = .error e := by
+  subst hrule
+  unfold parse
+  simp only [hok, hstrip, hdir, hsf, hsplit, hdot]
+  cases sel with
+  | none => simp at hproc; simp [hm, hcid, hanon, hrules, hsel, hproc]
+  | some rk => obtain ⟨r1, k1⟩ := rk; simp at hproc; simp [hm, hcid, hanon, hrules, hsel, hproc]
+
+/-- **rejects_too_many_line.**  A line with more fields than the selected rule has parameters is rejected
+    by `parse` with "Too many args". -/
+theorem rejects_too_many_line (g : Grammar) (hok : g.ok = true) (used : List Str) (s head : Str)
+    (sel : Option (Rule × Str)) (tail : Option Str) (name0 : Str) (fields : List Str) (ty cid : Str) (r0 : Rule) (rs : List Rule)
+    (hstrip : strip s = s) (hdir : isDirective g s = false) (hsf : splitFirst ';' s = (head, tail))
+    (hsplit : split g.delimiters head = some (name0 :: fields)) (hdot : splitOn '.' name0 = [name0])
+    (hm : matchType g name0 = some ty) (hcid : (name0.drop ty.length).takeWhile isIdChar = cid)
+    (hanon : ((cid.isEmpty && (ty == ['A'] || ty == ['W'] || ty == ['O'] || ty == ['P'])) || cid == ['?']) = false)
+    (hrules : rulesOf g ty = r0 :: rs) (rule : Rule) (kp : Option Nat)
+    (hsel : selectLoop fields (r0 :: rs) none = (sel, kp)) (hrule : rule = (sel.map (·.1)).getD r0)
+    (h : fields.length > rule.params.length) :
+    parse g used [] s = .error .tooMany :=
+  parse_error_of_process g hok used s head sel tail name0 fields ty cid r0 rs hstrip hdir hsf hsplit hdot hm hcid hanon hrules
+    rule kp hsel hrule _ (rejects_too_many rule fields name0 [] name0 h)
+
+/-- **rejects_too_few_nodes_line.**  A line that has no field for some node / pin parameter of the selected
+    rule is rejected by `parse` with "Missing node". -/
+theorem rejects_too_few_nodes_line (g : Grammar) (hok : g.ok = true) (used : List Str) (s head : Str)
+    (sel : Option (Rule × Str)) (tail : Option Str) (name0 : Str) (fields : List Str) (ty cid : Str) (r0 : Rule) (rs : List Rule)
+    (hstrip : strip s = s) (hdir : isDirective g s = false) (hsf : splitFirst ';' s = (head, tail))
+    (hsplit : split g.delimiters head = some (name0 :: fields)) (hdot : splitOn '.' name0 = [name0])
+    (hm : matchType g name0 = some ty) (hcid : (name0.drop ty.length).takeWhile isIdChar = cid)
+    (hanon : ((cid.isEmpty && (ty == ['A'] || ty == ['W'] || ty == ['O'] || ty == ['P'])) || cid == ['?']) = false)
+    (hrules : rulesOf g ty = r0 :: rs) (rule : Rule) (kp : Option Nat)
+    (hsel : selectLoop fields (r0 :: rs) none = (sel, kp)) (hrule : rule = (sel.map (·.1)).getD r0)
+    (i : Nat) (p : Param) (hi : fields.length ≤ i) (hp : rule.params[i]? = some p) (hk : p.kind.isNode = true) :
+    parse g used [] s = .error .missingNode :=
+  parse_error_of_process g hok used s head sel tail name0 fields ty cid r0 rs hstrip hdir hsf hsplit hdot hm hcid hanon hrules
+    rule kp hsel hrule _ (rejects_too_few_nodes rule fields name0 [] name0 i p hi hp hk)
+
+/-- an error of the named-parameter pass is the error of `Rule.process` -/
+theorem process_error_of_named (r : Rule) (fields : List Str) (name ns dv : Str) (nodes : List Str)
+    (args1 : List Arg) (rest : List Str) (e : Err)
+    (hlen : ¬ fields.length > r.params.length) (hnodes : extractNodes name ns r.params fields = .ok nodes)
+    (hmiss : missingArg r.params 0 fields.length = false)
+    (hpos : assignPos ((r.params.filter (·.kind.isArg)).map (Arg.init · dv)) (fields.drop (m2Of r.params 0 0)) = .ok (args1, rest))
+    (hnamed : assignNamed args1 rest = .error e) :
+    process r fields name ns dv = .error e := by
+  unfold process extractArgs
+  simp [hlen, hnodes, hmiss, hpos, hnamed]
+
+/-- **rejects_named_line.**  A line whose named-parameter part is refused (`rejects_unknown_named`: unknown
+    parameter; `rejects_value_after_named`: a positional value after a named one) is rejected by `parse`
+    with that error. -/
+theorem rejects_named_line (g : Grammar) (hok : g.ok = true) (used : List Str) (s head : Str)
+    (sel : Option (Rule × Str)) (tail : Option Str) (name0 : Str) (fields : List Str) (ty cid : Str) (r0 : Rule) (rs : List Rule)
+    (hstrip : strip s = s) (hdir : isDirective g s = false) (hsf : splitFirst ';' s = (head, tail))
+    (hsplit : split g.delimiters head = some (name0 :: fields)) (hdot : splitOn '.' name0 = [name0])
+    (hm : matchType g name0 = some ty) (hcid : (name0.drop ty.length).takeWhile isIdChar = cid)
+    (hanon : ((cid.isEmpty && (ty == ['A'] || ty == ['W'] || ty == ['O'] || ty == ['P'])) || cid == ['?']) = false)
+    (hrules : rulesOf g ty = r0 :: rs) (rule : Rule) (kp : Option Nat)
+    (hsel : selectLoop fields (r0 :: rs) none = (sel, kp)) (hrule : rule = (sel.map (·.1)).getD r0)
+    (nodes : List Str) (args1 : List Arg) (rest : List Str) (e : Err)
+    (hlen : ¬ fields.length > rule.params.length) (hnodes : extractNodes name0 [] rule.params fields = .ok nodes)
+    (hmiss : missingArg rule.params 0 fields.length = false)
+    (hpos : assignPos ((rule.params.filter (·.kind.isArg)).map (Arg.init · name0)) (fields.drop (m2Of rule.params 0 0)) = .ok (args1, rest))
+    (hnamed : assignNamed args1 rest = .error e) :
+    parse g used [] s = .error e :=
+  parse_error_of_process g hok used s head sel tail name0 fields ty cid r0 rs hstrip hdir hsf hsplit hdot hm hcid hanon hrules
+    rule kp hsel hrule _ (process_error_of_named rule fields name0 [] name0 nodes args1 rest e hlen hnodes hmiss hpos hnamed)
+
+/-- **rejects_unbalanced_line.**  A line whose part before `;` does not tokenise (unbalanced braces / quotes,
+    unmatched `}`) is rejected by `parse`. -/
+theorem rejects_unbalanced_line (g : Grammar) (hok : g.ok = true) (used : List Str) (ns s : Str)
+    (hdir : isDirective g (strip s) = false)
+    (h : split g.delimiters (splitFirst ';' (strip s)).1 = none) :
+    parse g used ns s = .error .unbalanced := by
+  unfold parse
+  simp only [hok, hdir]
+  simp [h]
+
+theorem bad_stays (ds : List Char) (t : Str) (s : St) (h : s.bad = true) : (t.foldl (step ds) s).bad = true := by
+  induction t generalizing s with
+  | nil => exact h
+  | cons c t ih =>
+    apply ih
+    unfold step
+    split
+    · split <;> simp [h]
+    · split
+      · split <;> simp [h]
+      · split
+        · simp [h]
+        · split
+          · simp [h]
+          · split <;> simp [h]
+
+/-- **split_stray_close.**  An unmatched `}` outside any bracket makes `split` itself fail (lifting
+    `stray_close_not_atomic` from the helper predicate to the tokeniser). -/
+theorem split_stray_close (ds : List Char) (hd : ds.contains '}' = false) (a b : Str)
+    (ha : scan ds a (none, []) = some (none, [])) : split ds (a ++ '}' :: b) = none := by
+  have hd' : '}' ∉ ds := by simpa using hd
+  have h1 := fold_scan ds a [] [] false (none, []) (none, []) ha
+  have h2 : (step ds ⟨[], a.reverse ++ [], none, [], false⟩ '}').bad = true := by
+    simp [step, hd']
+  have h1' : a.foldl (step ds) ⟨[], [], none, [], false⟩ = ⟨[], a.reverse ++ [], none, [], false⟩ := h1
+  have hrest : ∀ t : Str, ((a ++ '}' :: t).foldl (step ds) ⟨[], [], none, [], false⟩).bad = true := by
+    intro t
+    rw [List.foldl_append, List.foldl_cons, h1']
+    exact bad_stays ds t _ h2
+  have hall : (((a ++ '}' :: b) ++ [ds.headD ' ']).foldl (step ds) ⟨[], [], none, [], false⟩).bad = true := by
+    have e : (a ++ '}' :: b) ++ [ds.headD ' '] = a ++ '}' :: (b ++ [ds.headD ' ']) := by simp
+    rw [e]; exact hrest _
+  unfold split
+  simp only [hall, Bool.or_true, ↓reduceIte]
+
+
 /-- **line_roundtrip_table_partial.**  `line_roundtrip_partial` for the checked-out grammar: for EVERY rule of the
-    table and every component in normal form. -/
+    table and every component in normal form.
+    PARTIAL: the quantifier `normalCpt` / `optsNormal` is smaller than "every netlist Lcapy accepts".  Excluded
+    although parser and printer accept them (covered by correspondence and oracle only):
+      (i)   namespaced names (`a.R1 1 2 3`; `nameOK` forbids `.`),
+      (ii)  anonymous components (`W 1 2`, `R? 1 2`) and directive / comment / blank lines,
+      (iii) option values containing `{`, `}` or `,` and the `def` key (`l={R_1}`, `l={a, b}`) -- a proof
+            convenience of `optStrOK`, not a defect: model and code round-trip them,
+    and, corresponding to the known findings C06-e / C06-a / C06-b, values that are empty, start with `{` or `"`,
+    contain a top-level `=`, equal a keyword of the type, or (SW) equal the component name. -/
 theorem line_roundtrip_table_partial (r : Rule) (hr : r ∈ theGrammar.rules) (c : Cpt)
     (hn : normalCpt theGrammar r c = true) (s : Str) (hp : printCpt theGrammar c = some s) :
     ∃ kp os, (∀ used, parse theGrammar used [] s
@@ -829,7 +991,15 @@ theorem line_roundtrip_table_partial (r : Rule) (hr : r ∈ theGrammar.rules) (c
       ∧ strip s = s ∧ s.head? = c.name.head? ∧ c.name.head? ≠ some '.' ∧ c.name ≠ [] :=
   line_roundtrip_partial theGrammar table_wf2 r hr c hn s hp
 
-/-- **line_roundtrip_full_table_partial.**  The complete line-level statement for the checked-out grammar. -/
+/-- **line_roundtrip_full_table_partial.**  The complete line-level statement for the checked-out grammar.
+    PARTIAL: the quantifier `normalCpt` / `optsNormal` is smaller than "every netlist Lcapy accepts".  Excluded
+    although parser and printer accept them (covered by correspondence and oracle only):
+      (i)   namespaced names (`a.R1 1 2 3`; `nameOK` forbids `.`),
+      (ii)  anonymous components (`W 1 2`, `R? 1 2`) and directive / comment / blank lines,
+      (iii) option values containing `{`, `}` or `,` and the `def` key (`l={R_1}`, `l={a, b}`) -- a proof
+            convenience of `optStrOK`, not a defect: model and code round-trip them,
+    and, corresponding to the known findings C06-e / C06-a / C06-b, values that are empty, start with `{` or `"`,
+    contain a top-level `=`, equal a keyword of the type, or (SW) equal the component name. -/
 theorem line_roundtrip_full_table_partial (r : Rule) (hr : r ∈ theGrammar.rules) (c : Cpt)
     (hn : normalCpt theGrammar r c = true) (o : Opts) (ho : optsParse c.opts = .ok o) (hon : optsNormal o = true)
     (s : Str) (hp : printCpt theGrammar c = some s) :
@@ -837,6 +1007,23 @@ theorem line_roundtrip_full_table_partial (r : Rule) (hr : r ∈ theGrammar.rule
       ∧ printCpt theGrammar c' = some s ∧ c'.name = c.name := by
   obtain ⟨c', h1, h2, h3, h4, _⟩ := line_roundtrip_full_partial theGrammar table_wf2 r hr c hn o ho hon s hp
   exact ⟨c', h1, h2, h3, h4⟩
+
+/-- **print_parse_print_idempotent_partial.**  THE idempotence statement (line level): for a component in
+    normal form, print, parse the printed line, print again -- the second text is the first one.  (Corollary
+    of `line_roundtrip_full_partial`; same exclusions.) -/
+theorem print_parse_print_idempotent_partial (g : Grammar) (hg : grammarWF g = true) (r : Rule) (hr : r ∈ g.rules) (c : Cpt)
+    (hn : normalCpt g r c = true) (o : Opts) (ho : optsParse c.opts = .ok o) (hon : optsNormal o = true)
+    (s : Str) (hp : printCpt g c = some s) (used : List Str) :
+    ∃ c', parse g used [] s = .ok (c', none) ∧ printCpt g c' = some s := by
+  obtain ⟨c', h1, _, h3, _⟩ := line_roundtrip_full_partial g hg r hr c hn o ho hon s hp
+  exact ⟨c', h1 used, h3⟩
+
+/-- the same for the checked-out grammar -/
+theorem print_parse_print_idempotent_table_partial (r : Rule) (hr : r ∈ theGrammar.rules) (c : Cpt)
+    (hn : normalCpt theGrammar r c = true) (o : Opts) (ho : optsParse c.opts = .ok o) (hon : optsNormal o = true)
+    (s : Str) (hp : printCpt theGrammar c = some s) (used : List Str) :
+    ∃ c', parse theGrammar used [] s = .ok (c', none) ∧ printCpt theGrammar c' = some s :=
+  print_parse_print_idempotent_partial theGrammar table_wf2 r hr c hn o ho hon s hp used
 
 /-! non-vacuity: concrete components of several rule shapes satisfy every hypothesis -/
 
